@@ -41,24 +41,25 @@ def core(c): return "(ECore %s)" % c
 def stub(c): return "(EStubDecl %s)" % c
 
 
-MODS = ["x", "verifprog", "ex.am/mod", "m-1/z_9"]
-DIRS = [("a", "b"), ("p", "q"), ("util", "core"), ("t", "u2")]
+# module paths of the zoo differ from those of the F10 program (both share one llgo cache)
+MODS = ["z", "verifzoo", "ex.am/zoo", "m-1/z_9"]
+DIRS = [("a", "b", "c"), ("p", "q", "r"), ("util", "core", "ext"), ("t", "u2", "v_3")]
 TNAMES = ["T", "Rec", "Node", "B_1"]
 MV = ["M", "Val", "Do_2"]
 MP = ["P", "Ptr", "Set"]
 
 
-def gen_zoo(rng):
-    mod = rng.choice(MODS)
-    da, db = rng.choice(DIRS)
+def gen_zoo(rng, idx=0):
+    mod = rng.choice(MODS) + (str(idx) if idx else "")
+    da, db, dc = rng.choice(DIRS)
     T = rng.choice(TNAMES)
     M = rng.choice(MV)
     P = rng.choice(MP)
-    PA, PB, PM = mod + "/" + da, mod + "/" + db, mod
-    sub = lambda s: (s.replace("@MOD@", mod).replace("@DA@", da).replace("@DB@", db)
+    PA, PB, PC, PM = mod + "/" + da, mod + "/" + db, mod + "/" + dc, mod
+    sub = lambda s: (s.replace("@MOD@", mod).replace("@DA@", da).replace("@DB@", db).replace("@DC@", dc)
                      .replace("@T@", T).replace("@M@", M).replace("@P@", P))
     files = {
-        da + "/a.go": sub(A_GO), db + "/b.go": sub(B_GO),
+        da + "/a.go": sub(A_GO), db + "/b.go": sub(B_GO), dc + "/c.go": sub(C_GO),
         "aa_local.go": sub(LOCAL_GO), "main.go": sub(MAIN_GO),
     }
     E = []
@@ -142,7 +143,18 @@ def gen_zoo(rng):
     add("main: b.K.M$bound", core(ewrap(PM, "bound", PB, False, "K", (), M)), "known-wrap")
     add("main: (*a.K).P$thunk", core(ewrap(PM, "thunk", PA, True, "K", (), P)), "known-wrap")
     add("main: (*b.K).P$thunk", core(ewrap(PM, "thunk", PB, True, "K", (), P)), "known-wrap")
-    params = {"mod": mod, "dirs": [da, db], "T": T, "M": M, "P": P}
+    # the same generic type instance behind interfaces, as method value and as method expression
+    # in three packages: every mergeable definition is emitted by b, c and main
+    add("a.(*G[int]).Get (wrapper of the value method)", core(emeth(PA, True, "G", [INT], "Get")), "inst")
+    add("a.(*H[int,b.T]).Both (wrapper)", core(emeth(PA, True, "H", [INT, bT], "Both")), "inst")
+    for lab, cp in (("b", PB), ("c", PC), ("main", PM)):
+        add("%s.BoxUse" % lab, core(efunc(cp, "BoxUse")))
+        if lab == "c":
+            add("c.BoxUse$1", core(efunc(cp, "BoxUse", [1])))
+        add("%s: a.G[int].Get$bound" % lab, core(ewrap(cp, "bound", PA, False, "G", [INT], "Get")))
+        add("%s: (*a.G[int]).Set$thunk" % lab, core(ewrap(cp, "thunk", PA, True, "G", [INT], "Set")))
+        add("%s: a.G[int].Get$thunk" % lab, core(ewrap(cp, "thunk", PA, False, "G", [INT], "Get")))
+    params = {"mod": mod, "dirs": [da, db, dc], "T": T, "M": M, "P": P}
     return mod, files, E, params
 
 
@@ -197,6 +209,10 @@ type G[X any] struct{ V X }
 
 func (g G[X]) Get() X   { println("a.G.Get"); return g.V }
 func (g *G[X]) Set(v X) { println("a.(*G).Set"); func() { println("a.(*G).Set$1"); g.V = v }() }
+
+type Getter[X any] interface{ Get() X }
+type Setter[X any] interface{ Set(X) }
+type Bother interface{ Both() int }
 
 type H[X, Y any] struct {
 	A X
@@ -274,6 +290,45 @@ func UseG() int {
 	g.Set(4)
 	return g.Get()
 }
+
+func BoxUse() int {
+	println("b.BoxUse")
+	bx := &@DA@.G[int]{V: 30}
+	var g @DA@.Getter[int] = bx
+	var gv @DA@.Getter[int] = *bx
+	var st @DA@.Setter[int] = bx
+	var bo @DA@.Bother = &@DA@.H[int, @T@]{A: 1}
+	f := bx.Get
+	h := (*@DA@.G[int]).Set
+	k := @DA@.G[int].Get
+	h(bx, 31)
+	st.Set(32)
+	return g.Get() + gv.Get() + f() + k(*bx) + bo.Both()
+}
+'''
+
+C_GO = '''package @DC@
+
+import (
+	"@MOD@/@DA@"
+	"@MOD@/@DB@"
+)
+
+func BoxUse() int {
+	println("c.BoxUse")
+	bx := &@DA@.G[int]{V: 40}
+	var g @DA@.Getter[int] = bx
+	var gv @DA@.Getter[int] = *bx
+	var st @DA@.Setter[int] = bx
+	var bo @DA@.Bother = &@DA@.H[int, @DB@.@T@]{A: 2}
+	f := bx.Get
+	h := (*@DA@.G[int]).Set
+	k := @DA@.G[int].Get
+	h(bx, 41)
+	st.Set(42)
+	println(@DA@.Map(3, func(x int) @DA@.@T@ { println("c.BoxUse$1"); return @DA@.@T@{N: x} }).N)
+	return g.Get() + gv.Get() + f() + k(*bx) + bo.Both()
+}
 '''
 
 LOCAL_GO = '''package main
@@ -307,9 +362,25 @@ MAIN_GO = '''package main
 import (
 	"@MOD@/@DA@"
 	"@MOD@/@DB@"
+	"@MOD@/@DC@"
 )
 
 type @T@ struct{ N int }
+
+func BoxUse() int {
+	println("main.BoxUse")
+	bx := &@DA@.G[int]{V: 50}
+	var g @DA@.Getter[int] = bx
+	var gv @DA@.Getter[int] = *bx
+	var st @DA@.Setter[int] = bx
+	var bo @DA@.Bother = &@DA@.H[int, @DB@.@T@]{A: 3}
+	f := bx.Get
+	h := (*@DA@.G[int]).Set
+	k := @DA@.G[int].Get
+	h(bx, 51)
+	st.Set(52)
+	return g.Get() + gv.Get() + f() + k(*bx) + bo.Both()
+}
 
 func (t @T@) @M@() int  { println("main.T.M"); return 100 }
 func (t *@T@) @P@() int { println("main.(*T).P"); return 200 }
@@ -357,6 +428,8 @@ func main() {
 	println(@DA@.Map(1, func(x int) AL { println("main.main$1"); return AL{N: x} }).N)
 	println(@DB@.UseMap(), @DB@.UseG())
 	println(@DA@.Map("s", func(x string) [2]@T@ { println("main.main$2"); return [2]@T@{{N: 8}} })[0].N)
+	println("=== generic-shared")
+	println(@DB@.BoxUse(), @DC@.BoxUse(), BoxUse())
 	println("=== goroutines")
 	c := make(chan int)
 	@DA@.Spawn(c)
